@@ -118,7 +118,8 @@ def _reads_maximize(test: ast.AST) -> int:
     while isinstance(t, ast.UnaryOp) and isinstance(t.op, ast.Not):
         t = t.operand
         neg = -neg
-    if isinstance(t, ast.Attribute) and t.attr == "maximize":
+    if isinstance(t, ast.Attribute) and t.attr in ("maximize", "_maximize"):
+        # `self._maximize`: the direction kept by an object; that it IS the problem's direction is R13.8's obligation
         return neg
     if isinstance(t, ast.Name) and t.id in ("maximize", "is_maximize", "maximise"):
         return neg
